@@ -50,6 +50,8 @@ theorem Tie.sortPair_ne (sa sb : Nat) (h : sa ≠ sb) : (sortPair sa sb).1 ≠ (
   unfold sortPair; split <;> simp <;> omega
 
 theorem Tie.Q96_cast : ((2 : Int) ^ (96 : Nat)) = ((Q96 : Nat) : Int) := by decide
+/-- the same constant written as a literal (a harmless rewrite of `2**96` in the source) -/
+theorem Tie.Q96_lit : (79228162514264337593543950336 : Int) = ((Q96 : Nat) : Int) := by decide
 
 /-- `get_liquidity_for_amount0` with an integer amount -/
 theorem Tie.get_liquidity_for_amount0_int (sa sb : Nat) (w : Int) (h : sa ≠ sb) :
@@ -65,7 +67,7 @@ theorem Tie.get_liquidity_for_amount0_int (sa sb : Nat) (w : Int) (h : sa ≠ sb
   have hq : Q96 ≠ 0 := by decide
   have hs : ((y : Int) - (x : Int)) = ((y - x : Nat) : Int) := by omega
   have hd : (y - x : Nat) ≠ 0 := by omega
-  simp only [Q96_cast, hs, Tie_liqmath_mul_div x y Q96 hq, mul_div_int w _ _ hd, bind, Except.bind, pure, Except.pure]
+  simp only [Q96_cast, Q96_lit, hs, Tie_liqmath_mul_div x y Q96 hq, mul_div_int w _ _ hd, bind, Except.bind, pure, Except.pure]
 
 theorem Tie_liqmath_get_liquidity_for_amount0 (sa sb amount : Nat) (h : sa ≠ sb) :
     Py.get_liquidity_for_amount0 sa sb amount = .ok ((liqForAmount0 sa sb amount : Nat) : Int) := by
@@ -77,7 +79,7 @@ theorem Tie_liqmath_get_liquidity_for_amount0_zero (sa : Nat) (amount : Int) :
     Py.get_liquidity_for_amount0 sa sa amount = .error .ZeroDivisionError := by
   unfold Py.get_liquidity_for_amount0
   have hq : Q96 ≠ 0 := by decide
-  simp [Q96_cast, Tie_liqmath_mul_div sa sa Q96 hq, Tie_liqmath_mul_div_zero, bind, Except.bind, pure, Except.pure]
+  simp [Q96_cast, Q96_lit, Tie_liqmath_mul_div sa sa Q96 hq, Tie_liqmath_mul_div_zero, bind, Except.bind, pure, Except.pure]
 
 /-- `get_liquidity_for_amount1` with an integer amount -/
 theorem Tie.get_liquidity_for_amount1_int (sa sb : Nat) (w : Int) (h : sa ≠ sb) :
@@ -91,7 +93,7 @@ theorem Tie.get_liquidity_for_amount1_int (sa sb : Nat) (w : Int) (h : sa ≠ sb
   generalize (sortPair sa sb).2 = y at *
   have hs : ((y : Int) - (x : Int)) = ((y - x : Nat) : Int) := by omega
   have hd : (y - x : Nat) ≠ 0 := by omega
-  simp only [Q96_cast, hs, mul_div_int w _ _ hd, bind, Except.bind, pure, Except.pure]
+  simp only [Q96_cast, Q96_lit, hs, mul_div_int w _ _ hd, bind, Except.bind, pure, Except.pure]
 
 theorem Tie_liqmath_get_liquidity_for_amount1 (sa sb amount : Nat) (h : sa ≠ sb) :
     Py.get_liquidity_for_amount1 sa sb amount = .ok ((liqForAmount1 sa sb amount : Nat) : Int) := by
@@ -132,7 +134,7 @@ theorem Tie_liqmath_get_amount0 (cx : NumCtx) (sa sb l d : Nat) (ha : 0 < sa) (h
     have : (0 : Rat) < ((y : Int) : Rat) := by exact_mod_cast (by omega : 0 < y)
     exact ne_of_gt this
   have hp : ((((10 : Int) ^ d : Int)) : Rat) ≠ 0 := by rw [pow10_cast]; exact pow10_ne d
-  simp only [Q96_cast, hs, ipow_nat, ddiv_ok _ _ _ hx', ddiv_ok _ _ _ hy', ddiv_ok _ _ _ hp, bind, Except.bind, pure, Except.pure]
+  simp only [Q96_cast, Q96_lit, hs, ipow_nat, ddiv_ok _ _ _ hx', ddiv_ok _ _ _ hy', ddiv_ok _ _ _ hp, bind, Except.bind, pure, Except.pure]
   simp only [pow10_cast]
   congr 3
 
@@ -145,7 +147,7 @@ theorem Tie_liqmath_get_amount1 (cx : NumCtx) (sa sb l d : Nat) :
   generalize (sortPair sa sb).2 = y at *
   have hs : ((y : Int) - (x : Int)) = ((y - x : Nat) : Int) := by omega
   have hp : ((((10 : Int) ^ d : Int)) : Rat) ≠ 0 := by rw [pow10_cast]; exact pow10_ne d
-  simp only [Q96_cast, hs, ipow_nat, ddiv_ok _ _ _ hp, bind, Except.bind, pure, Except.pure]
+  simp only [Q96_cast, Q96_lit, hs, ipow_nat, ddiv_ok _ _ _ hp, bind, Except.bind, pure, Except.pure]
   simp only [pow10_cast]
   congr 3
 
